@@ -2,6 +2,7 @@
 import fscklib
 import seqlib
 import vlib
+import dclib
 from vlib import Break
 
 MODULE = "GoNfsd.Props.C04"
@@ -31,6 +32,8 @@ def run(ctx):
                                               "are stale once the lock was given back: entries committed by others meanwhile are overwritten", "trace": parts[-1]})
             except Break as b:
                 ctx.breaks.append(b)
+        # names are checked in the name CACHE only (M8e): cache = directory after every step of real transactions; no name twice on disk
+        dclib.run(ctx, ok_drv, "C04")
         fscklib.run_images(ctx, ok_drv, "conc", ["conc"] + sd + (["-hists", "40", "-clients", "5", "-ops", "150"] if t else ["-hists", "8", "-clients", "6", "-ops", "100", "-yield", "40"]), R, True)
         fscklib.run_images(ctx, ok_drv, "crash-meta", ["crash"] + sd + ["-mix", "meta"] + (["-workloads", "12", "-ops", "60", "-images", "800"] if t else ["-workloads", "2", "-ops", "40", "-images", "150"]), R, True)
         fscklib.run_images(ctx, ok_drv, "crash-free", ["crash"] + sd + ["-mix", "free", "-disk", "40000", "-ops", "22"] + (["-workloads", "6", "-images", "600"] if t else ["-workloads", "1", "-images", "120"]), R, True)
